@@ -27,7 +27,7 @@ def replay(path):
     r = subprocess.run(cmd, stdout=subprocess.PIPE, stderr=subprocess.STDOUT, text=True)
     print(r.stdout[-6000:])
     want = [json.dumps(x, separators=(",", ":")) for x in d["history"]]
-    got = [l for l in r.stdout.splitlines() if l.startswith("{") and '"reset"' not in l]
+    got = [l for l in r.stdout.splitlines() if l.startswith('{"e":') and '"reset"' not in l]
     same = [json.loads(x) for x in got] == d["history"]
     print("replay reproduces the recorded history:", same)
     return 0 if same else 3
